@@ -163,7 +163,8 @@ def main(argv):
         if fid not in known_hits:
             print('KNOWN-FINDING: property=%s %s %s (listed; not re-observed within this run\'s bounds)'
                   % (prop, fid, k.get('what', '')))
-    replay_dir = os.path.join(VERIF, 'replays', prop)
+    OUT = os.environ.get('VERIF_OUT', VERIF)     # the mutation self-test redirects outputs
+    replay_dir = os.path.join(OUT, 'replays', prop)
     if new_viol:
         os.makedirs(replay_dir, exist_ok=True)
         # one replay per distinct outcome pair keeps the report readable
@@ -235,8 +236,8 @@ def main(argv):
         'wall_s': round(wall, 2),
         'violations': len(new_viol),
     }
-    os.makedirs(os.path.join(VERIF, 'evidence'), exist_ok=True)
-    json.dump(ev, open(os.path.join(VERIF, 'evidence', prop + '.json'), 'w'), indent=1)
+    os.makedirs(os.path.join(OUT, 'evidence'), exist_ok=True)
+    json.dump(ev, open(os.path.join(OUT, 'evidence', prop + '.json'), 'w'), indent=1)
 
     print('%s %s: %d paths, %d forks, %d solver checks (%.1fs), %d witnesses replayed, '
           '%d/%d obligations discharged, classes=%s, exhaustive=%s, wall=%.1fs'
